@@ -46,6 +46,10 @@ class SettingsContainer(dict):
     def __init__(self, data: dict, lock: bool = True):
         super(SettingsContainer, self).__init__()
         for k, v in data.items():
+            if k == "__locked__":
+                # The lock state of the container is not a parameter. It ends
+                # up in files that were dumped from a container.
+                continue
             setattr(self, k, v)
         setattr(self, "__locked__", lock)
 
@@ -75,7 +79,8 @@ class SettingsContainer(dict):
             self[attr] = value
 
     def update_existing_keys(self, other: dict):
-        self.update((key, other[key]) for key in self.keys() & other.keys())
+        self.update((key, other[key]) for key in self.keys() & other.keys()
+                    if key != "__locked__")
 
 
 def merge_dicts(first: dict, second: dict, soft: bool = False) -> dict:
